@@ -492,6 +492,31 @@ def r13e(ctx):
     ctx.ob('R13e', 'QuantizerBias scale = s_a * s_w', ok_store and getter_ok,
            'scale is the product of the activation and weight scales' if ok_store and getter_ok
            else 'bias scale is not s_a * s_w', where(fwd))
+    # the scales are the caller's tensors (the integer back ends keep and reuse them): forward
+    # must not update them in place, directly or through an alias (x.to(device) returns x itself
+    # when nothing changes)
+    inplace = []
+    for p in returning(paths(repo, fwd)):
+        for e in p.events:
+            tgt = None
+            if e.kind == 'augname':
+                tgt = e.data[1]
+            elif e.kind == 'call':
+                mc = method_call(e.data[0])
+                if mc and mc[1].endswith('_') and not mc[1].startswith('_'):
+                    tgt = mc[0]
+            while tgt is not None and method_call(tgt) is not None and \
+                    method_call(tgt)[1] in ('to', 'detach', 'view', 'reshape', 'squeeze',
+                                            'contiguous', 'float', 'type_as'):
+                tgt = method_call(tgt)[0]
+            if tgt is not None and tgt[0] == 'param' and tgt[1] in fwd.params[2:4] and \
+                    show(tgt) not in inplace:
+                inplace.append(show(tgt))
+    ctx.ob('R13e', 'QuantizerBias.forward leaves its scale arguments unchanged', not inplace,
+           'no in-place update of s_a / s_w' if not inplace else
+           f'forward updates {inplace} in place (through an alias): the caller\'s scale tensor '
+           f'becomes s_a * s_w, so a second call, or the back end that reuses the tensor, works '
+           f'with s_a**2 * s_w', where(fwd), nontrivial=False)
     for p in returning(paths(repo, fwd)):
         r = p.retval
         deq = any(a == ('attr', SELF, 'dequantize') and v for a, v in p.assumptions)
